@@ -77,8 +77,14 @@ def match_tag(token, regex=match_tag_prefix_and_name):
     token = token[end:]
 
     attrs = d['attrs'] = []
+    pos = 0
     for m in match_single_attribute.finditer(token):
         attr = groupdict(m, token)
+        if m.start() > pos:
+            # Text that matches no attribute is kept as it is written,
+            # in front of the attribute that follows it.
+            attr['space'] = token[pos:m.start()] + attr['space']
+        pos = m.end()
         alt_value = attr.pop('alt_value', None)
         if alt_value is not None:
             attr['value'] = alt_value
